@@ -4,6 +4,7 @@
 mod common;
 mod hc;
 mod hc_random;
+mod hc_hostile;
 
 use common::*;
 use std::collections::HashMap;
@@ -60,6 +61,23 @@ fn main() {
             }
             progress(&progress_path, "done");
             eprintln!("hc-random: runs={} sent={} delivered={} frames={} quiesced={} dead={} lines={}", runs, tot.0, tot.1, tot.2, tot.3, tot.4, tr.lines);
+        }
+        "hc-hostile" => {
+            let seed = geti(&m, "seed", 1);
+            let runs = geti(&m, "runs", 10);
+            let start = geti(&m, "start", 0);
+            let mut tr = Trace::create(&out);
+            let mut inj = 0;
+            let mut dead = 0;
+            for i in start..start + runs {
+                progress(&progress_path, &format!("{}", i));
+                let s = hc_hostile::run_hostile(&mut tr, i, mix(seed ^ 0x77, i));
+                tr.flush();
+                inj += s.injected;
+                dead += s.dead as u64;
+            }
+            progress(&progress_path, "done");
+            eprintln!("hc-hostile: runs={} injected={} dead={} lines={}", runs, inj, dead, tr.lines);
         }
         _ => {
             eprintln!("usage: uvh <hc-random|...> [--key value]...");
